@@ -111,6 +111,10 @@ def shapes_for(voc, tier):
         for st in (stamps[:3] if quick else stamps):
             for tr in ([], ['1', '0.9'], ['0.9', '0.9'], ['1', '0.5', '1']) if quick else ([], ['0.5'], ['1', '0.9'], ['0.9', '0.9'], ['0', '0.25', '1'], ['1', '0.5', '1'], ['1', '1', '1', '1']):
                 out.append(('sentence#%s/%s/%d' % (p, st, len(tr)), ('Sentence', stmt, p, st, tr)))
+    # every punctuation directly after a bare identifier (no bracket between the name and the mark)
+    for p in voc['punctuations']:
+        out.append(('sentence-atom#%s' % p, ('Sentence', a(0), p, '', [])))
+        out.append(('sentence-atom-st#%s' % p, ('Sentence', a(0), p, stamps[-1], [])))
     for b in ([], ['0.5'], ['0.5', '0.75', '0.25'], ['0.5', '0.5'], ['1', '0', '1']) if quick else ([], ['0.5'], ['0.5', '0.75'], ['0.5', '0.75', '0.25'], ['1', '0', '1', '0.5']):
         out.append(('task/%d' % len(b), ('Task', b, stmt, voc['punctuations'][0], stamps[1] if len(stamps) > 1 else '', ['1', '0.9'])))
         out.append(('task-atom/%d' % len(b), ('Task', b, a(0), voc['punctuations'][-1], '', [])))
